@@ -6,6 +6,10 @@
 //!   ast <spec>                       every span stored in the AST of a valid template
 //!   tbl <ops>                        real `Instructions::{add, add_with_line, add_with_span}` driven
 //!                                    with an arbitrary add sequence, then `get_line/get_span` per pc
+//!   cg <ops>                         the real `CodeGenerator` driven with a script of set_line / push_span /
+//!                                    pop_span / add / add_with_span calls, then `get_line/get_span` per pc
+//!   stm <spec>                       per top-level statement of a template: its span and the instructions it
+//!                                    compiles to (name, line, span)
 //!   ins <tid> <block> <spec>         line/span tables of real compiled templates, per pc
 //!   err <id> <class> <cfg> <v> <h>   failing template `id` in environment configuration `cfg`, shifted by
 //!                                    vertical variant v and horizontal variant h: the located error chain
@@ -588,6 +592,113 @@ fn runtime_cases() -> Vec<Case> {
     v
 }
 
+/// Failing instructions that the code generator emits WITHOUT a span of their own (they rely on
+/// `current_line`), planted in every span-stack context and with every kind of sub-expression in
+/// the tag.  (site, statement text with EXPR placeholder, flags, only-config)
+const SPANLESS_SITES: &[(&str, &str, &str, &str)] = &[
+    // PushAutoEscape: "invalid value to autoescape tag"
+    ("autoescape", "@@{% autoescape EXPR %}zz{% endautoescape %}", "", ""),
+    ("autoescape_ml", "@@{% autoescape\n   EXPR\n%}zz{% endautoescape %}", "", ""),
+    // Emit of a filter block whose filter returns undefined (strict)
+    ("filter_emit", "@@{% filter undef2(UEXPR) %}zz{% endfilter %}$$", "s", ""),
+    // JumpIfFalse of a conditional expression outside of an emit (strict: undefined condition)
+    ("ifexpr_jump", "@@{% set q = 1 if UEXPR else 2 %}", "s", ""),
+    // Not on an undefined value (strict)
+    ("not_op", "@@{% set q = not UEXPR %}", "s", ""),
+    // Emit of a call block: the macro returns a string the failing formatter refuses
+    ("callblock_emit", "@@{% call(u) refu(EXPR) %}zz{% endcall %}$$", "", "n"),
+    // frame pushes without span (fail under the recursion limit of configuration r)
+    ("with_push", "@@{% with q = EXPR %}zz{% endwith %}$$", "", "r"),
+    ("import_push", "@@{% import \"splib\" as spl %}", "", "r"),
+    ("from_import_push", "@@{% from \"splib\" import spm %}", "", "r"),
+];
+
+/// sub-expressions evaluating to the invalid mode "bogus" / to undefined, one of every kind
+const EXPR_KINDS: &[(&str, &str, &str)] = &[
+    ("var", "bad", "missing"),
+    ("attr", "cfg.mode", "d.nope"),
+    ("item", "cfg[\"mode\"]", "d[\"nope\"]"),
+    ("filter", "bad|lower", "x|undef"),
+    ("call", "mkbad()", "mkundef()"),
+    ("test_cond", "(\"bogus\" if x is defined else \"html\")", "(missing if x is defined else 1)"),
+    ("cond", "(bad if x else \"html\")", "(d.nope if x else 1)"),
+    ("concat", "bad ~ \"\"", "d.nope or missing"),
+    ("slice", "bad[0:5]", "lst[7]"),
+];
+
+/// span-stack contexts: (name, main template with STMT on its own line(s), other templates).
+/// `PRE` defines the helper macro; the statement never shares a line with the surrounding construct.
+const SPAN_CONTEXTS: &[(&str, &str, &str)] = &[
+    ("top", "PRE\nline\n{{ x }}\nSTMT\nend", ""),
+    ("callbody", "PRE\n{% macro m() %}[{{ caller() }}]{% endmacro %}\n{% call m() %}\n  a\nSTMT\n{% endcall %}", ""),
+    ("callbody_args", "PRE\n{% macro m(a, b=1) %}[{{ caller() }}]{% endmacro %}\n{% call m(x, b=lst[0]) %}\n\nSTMT\n{% endcall %}", ""),
+    ("after_ns", "PRE\n{% set ns = namespace() %}\n{% set ns.mode = 1 %}\ntext\n\nSTMT\nend", ""),
+    ("after_ns_in_for", "PRE\n{% set ns = namespace() %}\n{% for a in [1] %}\n{% set ns.mode = a %}\ntext\nSTMT\n{% endfor %}", ""),
+    ("macro", "PRE\n{% macro w() %}\n a\nSTMT\n{% endmacro %}\nx\n{{ w() }}", ""),
+    ("macro_ns", "PRE\n{% macro w() %}\n{% set ns = namespace() %}{% set ns.k = 2 %}\n a\nSTMT\n{% endmacro %}\nx\n{{ w() }}", ""),
+    ("filterblock", "PRE\n{% filter upper %}\nabc\nSTMT\n{% endfilter %}", ""),
+    ("setblock", "PRE\n{% set cap %}\nabc\nSTMT\n{% endset %}", ""),
+    ("for", "PRE\n{% for a in lst %}\n{{ a }}\nSTMT\n{% endfor %}", ""),
+    ("for_filter", "PRE\n{% for a in lst if a > 0 %}\n{{ a }}\nSTMT\n{% endfor %}", ""),
+    ("if", "PRE\n{% if x %}\nyes\nSTMT\n{% endif %}", ""),
+    ("else", "PRE\n{% if not x %}\n{% else %}\nno\nSTMT\n{% endif %}", ""),
+    ("with", "PRE\n{% with q = 1 %}\n{{ q }}\nSTMT\n{% endwith %}", ""),
+    ("autoescape", "PRE\n{% autoescape true %}\nabc\nSTMT\n{% endautoescape %}", ""),
+    ("block", "PRE\n{% block b %}\nabc\nSTMT\n{% endblock %}", ""),
+    ("child_block", "{% extends \"spbase\" %}\nPRE\n{% block b %}\nabc\nSTMT\n{% endblock %}", ""),
+    ("include", "i1\nPRE\nSTMT\ni3", "a\n{% include \"THIS\" %}\nb"),
+    ("after_print", "PRE\n{{ d.a }} {{ lst[0] }} {{ x|string }}\n{{ mkbad() }}\nSTMT", ""),
+];
+
+const SP_PRELUDE: &str = "{% macro refu(v) %}REFU{{ \"SED\" }}{% if false %}{{ caller(1) }}{% endif %}{% endmacro %}";
+/// contexts that open no frame of their own (reachable under the recursion limit of configuration r)
+const FRAMELESS_CONTEXTS: &[&str] = &["top", "after_ns", "filterblock", "setblock", "if", "else", "autoescape", "after_print"];
+
+fn spanless_cases(tier: &str) -> Vec<Case> {
+    let mut out = Vec::new();
+    for (si, (site, stmt, flags, only)) in SPANLESS_SITES.iter().enumerate() {
+        for (ci, (ctx, wrapper, includer)) in SPAN_CONTEXTS.iter().enumerate() {
+            if *only == "r" && !FRAMELESS_CONTEXTS.contains(ctx) {
+                continue;
+            }
+            for (ki, (kind, e, u)) in EXPR_KINDS.iter().enumerate() {
+                let uses_expr = stmt.contains("EXPR");
+                if !uses_expr && ki > 0 {
+                    continue;
+                }
+                // quick tier: every site x context, the kinds rotate; every kind in the main contexts of
+                // the autoescape site
+                if tier != "thorough" && uses_expr && !(ki == (si + ci) % EXPR_KINDS.len() || (si == 0 && ci < 4)) {
+                    continue;
+                }
+                let st = stmt.replace("UEXPR", u).replace("EXPR", e);
+                let text = wrapper.replace("PRE", SP_PRELUDE).replace("STMT", &st);
+                let mut templates = vec![
+                    ("spbase".to_string(), "b1\n{% block b %}{% endblock %}\nb3".to_string()),
+                    ("splib".to_string(), "{% macro spm() %}m{% endmacro %}".to_string()),
+                ];
+                let (main, shifted) = if includer.is_empty() {
+                    templates.push(("main".to_string(), text));
+                    ("main", "main")
+                } else {
+                    templates.push(("spinc".to_string(), text));
+                    templates.push(("main".to_string(), includer.replace("THIS", "spinc")));
+                    ("main", "spinc")
+                };
+                out.push(Case {
+                    id: format!("sl_{}_{}_{}", site, ctx, if uses_expr { kind } else { "-" }),
+                    templates,
+                    main: main.to_string(),
+                    shifted: shifted.to_string(),
+                    flags: flags.to_string(),
+                    class: "runtime",
+                });
+            }
+        }
+    }
+    out
+}
+
 /// valid templates whose every line starts in data state; syntax errors are planted at every
 /// token position of these
 const BASES: &[&str] = &[
@@ -721,7 +832,12 @@ fn build_case(c: &Case, vi: usize, hi: usize) -> Built {
         };
         let t1 = if b { format!("{}{}", &text[..a], &text[a + 2..]) } else { text.clone() };
         let h = t1.find("@@").expect("case needs an @@ marker");
-        let plain = format!("{}{}", &t1[..h], &t1[h + 2..]);
+        let t2 = format!("{}{}", &t1[..h], &t1[h + 2..]);
+        // optional `$$`: end of the marked construct (default: end of the tag after the marker)
+        let (plain, cend) = match t2.find("$$") {
+            Some(e) => (format!("{}{}", &t2[..e], &t2[e + 2..]), Some(e)),
+            None => (t2, None),
+        };
         assert!(a <= h, "vertical marker must precede the horizontal one");
         pv = a;
         ph = h;
@@ -731,6 +847,7 @@ fn build_case(c: &Case, vi: usize, hi: usize) -> Built {
         let tag_end = ["}}", "%}", "#}", "»", "%>", "#>"].iter().filter_map(|e| tail.find(e)).min().unwrap_or(tail.len());
         // an unclosed block extends to the end of the template
         let tag_end = if c.id.starts_with("syn_missing_") { tail.len() } else { tag_end };
+        let tag_end = cend.map(|e| e - ph).unwrap_or(tag_end);
         mext = tail[..tag_end].bytes().filter(|x| *x == b'\n').count();
         let base_lines = 1 + plain.bytes().filter(|x| *x == b'\n').count();
         let (vn, unit) = V_SHIFTS[vi];
@@ -762,7 +879,9 @@ fn build_case(c: &Case, vi: usize, hi: usize) -> Built {
 ///   k keep_trailing_newline       t trim_blocks + lstrip_blocks
 ///   c custom delimiters `<% %>`, `« »`, `<# #>` (the templates are rewritten accordingly)
 ///   s strict, m semi-strict, h chainable undefined behaviour
-const CONFIGS: &[&str] = &["d", "p", "n", "x", "a", "k", "t", "c", "s", "m", "h"];
+///   r recursion limit 1: every instruction that opens a frame (with, for, import, macro call,
+///     include, block) fails right there
+const CONFIGS: &[&str] = &["d", "p", "n", "x", "a", "k", "t", "c", "s", "m", "h", "r"];
 
 fn custom_syntax_case(c: &Case) -> Case {
     let mut c2 = c.clone();
@@ -817,6 +936,7 @@ fn run_case(c0: &Case, cfg: &str, vi: usize, hi: usize) -> String {
                     }
                 });
             }
+            "r" => env.set_recursion_limit(1),
             "k" => env.set_keep_trailing_newline(true),
             "t" => {
                 env.set_trim_blocks(true);
@@ -839,6 +959,10 @@ fn run_case(c0: &Case, cfg: &str, vi: usize, hi: usize) -> String {
         env.add_function("boom_src", boom_src);
         env.add_filter("boomf", boomf);
         env.add_test("boomt", boomt);
+        env.add_function("mkbad", || Value::from("bogus"));
+        env.add_function("mkundef", || Value::UNDEFINED);
+        env.add_filter("undef", |_v: Value| Value::UNDEFINED);
+        env.add_filter("undef2", |_v: Value, _a: Value| Value::UNDEFINED);
         // the main template is added last so that the others exist; a failing add of a non-main
         // template is kept out of the environment (then the include fails as "missing")
         let mut first_err: Option<Error> = None;
@@ -866,7 +990,8 @@ fn run_case(c0: &Case, cfg: &str, vi: usize, hi: usize) -> String {
             Err(e) => format!("load|{}", describe_chain(&e, &lookup)),
             Ok(()) => {
                 let t = env.get_template(&c.main).unwrap();
-                let ctx = context! { x => 1, y => 0, n => 0, s => "str", lst => vec![1, 2, 3], d => context!{ a => 1 }, name => "n", nothing => Value::from(()) };
+                let ctx = context! { x => 1, y => 0, n => 0, s => "str", lst => vec![1, 2, 3], d => context!{ a => 1 }, name => "n", nothing => Value::from(()),
+                    bad => "bogus", cfg => context!{ mode => "bogus" } };
                 match t.render(ctx) {
                     Err(e) => format!("render|{}", describe_chain(&e, &lookup)),
                     Ok(_) => "noerror|".to_string(),
@@ -1098,14 +1223,154 @@ fn tbl_cases(tier: &str, rng: &mut Rng) -> Vec<String> {
     out
 }
 
+// ------------------------------------------------------------------------------------------------
+// the real CodeGenerator driven with a script of its location primitives
+fn run_cg(ops: &str) -> String {
+    let r = guarded(|| {
+        let mut cg = machinery::CodeGenerator::new("t", "");
+        let mut n = 0u32;
+        for op in ops.split(',').filter(|x| !x.is_empty()) {
+            if op == "a" {
+                cg.add(Instruction::DupTop);
+                n += 1;
+            } else if op == "o" {
+                cg.pop_span();
+            } else if let Some(l) = op.strip_prefix('l') {
+                cg.set_line(l.parse().unwrap());
+            } else if let Some(sp) = op.strip_prefix('p') {
+                cg.push_span(parse_span(sp));
+            } else if let Some(sp) = op.strip_prefix('s') {
+                cg.add_with_span(Instruction::DupTop, parse_span(sp));
+                n += 1;
+            } else {
+                panic!("bad op");
+            }
+        }
+        let (ins, _) = cg.finish();
+        lookups(&ins, n + 1)
+    });
+    r.unwrap_or_else(|m| format!("panic|{}", hex(m.as_bytes())))
+}
+
+const CG_ALPHABET: &[&str] = &["a", "o", "l1", "l2", "p1.0.0.1.3.3", "p2.1.7.2.5.12", "p1.4.4.2.1.9", "s2.0.7.2.5.12"];
+
+fn cg_cases(tier: &str, rng: &mut Rng) -> Vec<String> {
+    let mut out = vec![String::new()];
+    let maxlen = if tier == "quick" { 4 } else { 5 };
+    let mut frontier = vec![String::new()];
+    for _ in 0..maxlen {
+        let mut next = Vec::new();
+        for p in &frontier {
+            for a in CG_ALPHABET {
+                next.push(if p.is_empty() { a.to_string() } else { format!("{},{}", p, a) });
+            }
+        }
+        out.extend(next.iter().cloned());
+        frontier = next;
+    }
+    // long random scripts shaped like compilations: statements that set a line, nested balanced
+    // expressions, adds in between, occasionally an unbalanced push (attribute assignment)
+    let nrand = if tier == "quick" { 1500 } else { 20000 };
+    for _ in 0..nrand {
+        let mut ops: Vec<String> = Vec::new();
+        let mut line = 1u64;
+        let mut depth = 0;
+        let len = 5 + rng.below(60) as usize;
+        while ops.len() < len {
+            match rng.below(10) {
+                0 | 1 => {
+                    line += rng.below(3);
+                    ops.push(format!("l{}", line));
+                }
+                2 | 3 => {
+                    let l = line + rng.below(2);
+                    let c = rng.below(30);
+                    ops.push(format!("p{}.{}.{}.{}.{}.{}", l, c, l * 40 + c, l + rng.below(2), c + 4, l * 40 + c + 4));
+                    depth += 1;
+                }
+                4 | 5 => {
+                    if depth > 0 || rng.chance(1, 6) {
+                        ops.push("o".into());
+                        if depth > 0 {
+                            depth -= 1;
+                        }
+                    }
+                }
+                6 => {
+                    let c = rng.below(30);
+                    ops.push(format!("s{}.{}.{}.{}.{}.{}", line, c, line * 40 + c, line, c + 2, line * 40 + c + 2));
+                }
+                _ => ops.push("a".into()),
+            }
+        }
+        out.push(ops.join(","));
+    }
+    out
+}
+
+// ------------------------------------------------------------------------------------------------
+// per top-level statement: the instructions it compiles to, with their names and locations
+fn run_stm(src: &str) -> String {
+    let r = guarded(|| {
+        let ast = match machinery::parse(src, "main", SyntaxConfig::default(), WhitespaceConfig::default()) {
+            Ok(a) => a,
+            Err(e) => return format!("err|{:?}", e.kind()),
+        };
+        let children = match &ast {
+            machinery::ast::Stmt::Template(t) => &t.children,
+            _ => return "err|not-a-template".to_string(),
+        };
+        let mut cg = machinery::CodeGenerator::new("main", src);
+        let mut ranges = Vec::new();
+        for child in children {
+            let j = serde_json::to_value(child).unwrap();
+            let mut one = Vec::new();
+            if let Some(sp) = j.get("inner").and_then(|x| x.get(1)) {
+                collect_spans(sp, &mut one);
+            }
+            let kind = j.get("stmt").and_then(|x| x.as_str()).unwrap_or("?").to_string();
+            let a = cg.next_instruction();
+            cg.compile_stmt(child);
+            let b = cg.next_instruction();
+            ranges.push((kind, one.first().cloned().unwrap_or_else(|| "-".into()), a, b));
+        }
+        let (ins, _blocks) = cg.finish();
+        let parts: Vec<String> = ranges
+            .iter()
+            .map(|(kind, span, a, b)| {
+                let body: Vec<String> = (*a..*b)
+                    .map(|pc| {
+                        let name = format!("{:?}", ins.get(pc).unwrap());
+                        let name = name.split(|c: char| !c.is_alphanumeric()).next().unwrap_or("").to_string();
+                        format!(
+                            "{}/{}/{}",
+                            name,
+                            opt(ins.get_line(pc)),
+                            ins.get_span(pc).map(|s| span_str(&s)).unwrap_or_else(|| "-".into())
+                        )
+                    })
+                    .collect();
+                format!("{}@{}={}", kind, span, body.join(";"))
+            })
+            .collect();
+        format!("ok|{}", parts.join("|"))
+    });
+    r.unwrap_or_else(|m| format!("panic|{}", hex(m.as_bytes())))
+}
+
 /// templates whose compiled instruction tables are dumped
 fn ins_templates() -> Vec<String> {
     let mut v: Vec<String> = BASES.iter().map(|s| s.to_string()).collect();
     for c in runtime_cases() {
         if c.class == "runtime" {
             for (_, t) in &c.templates {
-                v.push(t.replace("@@", "").replace("^^", ""));
+                v.push(t.replace("@@", "").replace("^^", "").replace("$$", ""));
             }
+        }
+    }
+    for c in spanless_cases("quick") {
+        for (_, t) in &c.templates {
+            v.push(t.replace("@@", "").replace("^^", "").replace("$$", ""));
         }
     }
     v.sort();
@@ -1157,6 +1422,7 @@ impl LenPub for Instructions<'_> {
 // ------------------------------------------------------------------------------------------------
 fn all_cases(tier: &str, rng: &mut Rng) -> Vec<Case> {
     let mut v = runtime_cases();
+    v.extend(spanless_cases(tier));
     v.extend(planted_cases(tier, rng));
     v
 }
@@ -1180,6 +1446,14 @@ fn variants(c: &Case, idx: usize, tier: &str) -> Vec<(&'static str, usize, usize
             if cfg != "d" && PLANT_CFGS[idx % PLANT_CFGS.len()] != cfg {
                 continue;
             }
+        } else if c.id.starts_with("sl_") {
+            // spanless sites: the configuration in which the site fails (default unless the site names one),
+            // plus debug off
+            let only = SPANLESS_SITES.iter().find(|s| c.id.starts_with(&format!("sl_{}_", s.0))).map(|s| s.3).unwrap_or("");
+            let want = if only.is_empty() { "d" } else { only };
+            if cfg != want && !(cfg == "x" && only.is_empty()) {
+                continue;
+            }
         } else if cfg == "a" && (!is_print || c.id.ends_with("_after_print")) {
             continue; // the custom auto-escape format makes every print of the shifted template fail
         } else if cfg != "d" && c.flags.contains('f') {
@@ -1190,7 +1464,9 @@ fn variants(c: &Case, idx: usize, tier: &str) -> Vec<(&'static str, usize, usize
                 let big = V_SHIFTS[vi].0 > 1000 || H_SHIFTS[hi] == "L";
                 let small_sample = vi <= 1 || (vi == 3 && hi == 2) || (vi == 2 && hi == 1);
                 let keep = if tier == "thorough" {
-                    c.class != "planted" || cfg == "d" || REDUCED.contains(&(vi, hi))
+                    (c.class != "planted" && !c.id.starts_with("sl_")) || (c.class == "planted" && cfg == "d") || REDUCED.contains(&(vi, hi))
+                } else if c.id.starts_with("sl_") {
+                    REDUCED.contains(&(vi, hi)) && (cfg != "x" || vi <= 1)
                 } else if c.class != "planted" {
                     cfg == "d" || (is_print && matches!(cfg, "p" | "n" | "a")) || REDUCED.contains(&(vi, hi))
                 } else if cfg != "d" {
@@ -1265,6 +1541,11 @@ fn gen(tier: &str) {
         s.push_lit(src);
         writeln!(out, "ast {}\t{}", s.spec(), run_ast(&s.build())).unwrap();
         run_ins(&mut out, tid, src);
+        writeln!(out, "stm {}\t{}", Src::lit(src).spec(), run_stm(src)).unwrap();
+    }
+    // cg stream
+    for ops in cg_cases(tier, &mut rng) {
+        writeln!(out, "cg {}\t{}", if ops.is_empty() { "-" } else { &ops }, run_cg(&ops)).unwrap();
     }
     // tbl stream
     for ops in tbl_cases(tier, &mut rng) {
@@ -1300,6 +1581,8 @@ fn main() {
                 "lex" => println!("lex {} {}\t{}", args[3], args[4], run_lex(&args[3], &Src::parse(&args[4]).build())),
                 "ast" => println!("ast {}\t{}", args[3], run_ast(&Src::parse(&args[3]).build())),
                 "tbl" => println!("tbl {}\t{}", args[3], run_tbl(if args[3] == "-" { "" } else { &args[3] })),
+                "cg" => println!("cg {}\t{}", args[3], run_cg(if args[3] == "-" { "" } else { &args[3] })),
+                "stm" => println!("stm {}\t{}", args[3], run_stm(&Src::parse(&args[3]).build())),
                 "ins" => {
                     let stdout = std::io::stdout();
                     let mut out = stdout.lock();
